@@ -33,6 +33,8 @@ pub struct WireState {
     pub from_ep: Vec<u8>,
     /// writes fail with BrokenPipe
     pub write_broken: bool,
+    /// writes never complete (the peer stopped reading: zero window)
+    pub write_stalled: bool,
     /// the endpoint dropped its side
     pub dropped: bool,
     pub reads: u64,
@@ -64,6 +66,16 @@ impl WireHandle {
         let mut s = self.0.borrow_mut();
         s.eof = true;
         s.write_broken = true;
+    }
+
+    /// The peer resets the connection after what it already sent: pending input stays readable,
+    /// writes fail
+    pub fn break_writes(&self) {
+        self.0.borrow_mut().write_broken = true;
+    }
+
+    pub fn stall_writes(&self) {
+        self.0.borrow_mut().write_stalled = true;
     }
 
     pub fn input_len(&self) -> usize {
@@ -136,6 +148,10 @@ impl AsyncWrite for Wire {
                 io::ErrorKind::BrokenPipe,
                 "connection closed",
             )));
+        }
+        if s.write_stalled {
+            // no waker: only the handshake timeout ends this
+            return Poll::Pending;
         }
         s.from_ep.extend_from_slice(buf);
         Poll::Ready(Ok(buf.len()))
